@@ -67,7 +67,8 @@ def pool(kind, rng, n):
     elif kind == "floatContent":
         out += [(x, A) for x in ["0", "-0", "1.", ".5", "1e5", "1E-5", "+1.5e+10", "inf", "-inf", "+Infinity", "INF", "iNf", "nan", "-nan", "NaN", "infinity", "1e400", "1e-400", "00.5"]]
         out += [(rand_float_str(rng), A) for _ in range(n)]
-        out += [(x, R) for x in ["", ".", "+", "-", "e5", "1e", "1e+", "1.5.2", "1e5.0", "--1", "+-1", "1,5", "0x1p3", "0x10", "infinit", "Infinityy", "nan(1)", "na", "in", "1d5", "1f", "1L", "+.e3", ".e1", "1..2"]]
+        out += [(x, R) for x in ["", ".", "+", "-", "e5", "1e", "1e+", "1.5.2", "1e5.0", "--1", "+-1", "1,5", "0x1p3", "0x10", "infinit", "Infinityy", "nan(1)", "na", "in", "1d5", "1f", "1L", "+.e3", ".e1", "1..2",
+                                 "sNaN", "snan", "-snan7", "nan123", "NaN0", "+sNaN", "qnan", "Infinity8"]]
         out += [(junk(rng), R) for _ in range(n // 2)]
     elif kind in ("floatRangeContent_EW", "floatRangeContent_NS"):
         b = 180 if kind.endswith("EW") else 90
@@ -216,6 +217,11 @@ def run(ctx):
             for s, lab in cand:
                 # a generic string under a typed rule has no label -> classified by Lean only (correspondence, no oracle)
                 cases.append((rn, s, lab, kv, crs, enum, mixed, typed))
+        if mixed:
+            # ... and childless once more AFTER the with-children pass: a verdict depends on the node at hand, not on what the same
+            # rule accepted for the same text a moment ago
+            for s, lab in cand[:len(generic)]:
+                cases.append((rn, s, lab, [], crs, enum, mixed, typed))
     results, reqs = [], []
     for rn, s, lab, kv, crs, enum, mixed, typed in cases:
         r = run_one(ri, rn, s, kv)
